@@ -80,7 +80,10 @@ def dump(g: Graph) -> list:
 
 def trip(g: Graph, how, timeout: float = 5.0) -> dict:
     try:
-        back = guarded(how, timeout)
+        try:
+            back = guarded(how, timeout)
+        except CaseTimeout:          # a stalled machine is not a hang: only a second, much longer wait counts
+            back = guarded(how, 12 * timeout)
         return {"nodes": dump(back), "eq": bool(back == g)}
     except (Exception, CaseTimeout) as e:
         return {"error": repr(e)[:200]}
@@ -125,9 +128,10 @@ def run(ctx):
         "evaluations": len(cases), "distinct_nontrivial": nontrivial, "exhaustive": True,
         "plain_graphs": len(plain), "fluent_programs": nfl, "plain_graphs_whose_last_node_has_outputs": term_out,
         "round_trips_per_case": 3,
-        "rule": f"spec/GraphSerde.tla!Plain: every DAG with <= {consts['MaxN']} uniquely named nodes, per node one of 5 output "
+        "rule": f"spec/GraphSerde.tla!Plain: every DAG with <= {consts['MaxN']} uniquely named nodes (named n1..n3, and again with names "
+                f"that coincide with output names 'a'/'b'/'0' rotated, and with input names / serialisation keys), per node one of 5 output "
                 f"lists ([], ['0'], ['a'], ['a','b'], ['0','a']; only [], ['0'], ['a','b'] beyond {consts['MaxRichN']} nodes), inputs x/y each absent or bound to any output of an earlier node, "
-                f"payloads rotated through 14 literals (all rotations up to {consts['MaxPayN']} nodes, 2 beyond); "
+                f"payloads rotated through 14 literals (all rotations up to {consts['MaxPayN']} nodes, 1-2 beyond); "
                 f"!Fluent: from_source over 1..3 sources (single/two-output) followed by <= {consts['MaxOps']} of map/reduce/add/"
                 "scale; all enumerated by TLC; non-trivial = has an edge or is fluent; TLC evaluates GraphSerde!Post on every "
                 "(case, dumps of deserialise(serialise(g)), from_json(to_json(g)), Cascade file round trip)",
